@@ -13,7 +13,7 @@ rs = np.random.RandomState(payload["seed"])
 viol = {"make_symmetric": [], "make_skew_symmetric": [], "finalize_symmetric_matrix": [], "remove_null_cols": [], "solve": [], "is_symmetric": []}
 n_cases = 0
 def dense(v, r, c, n):
-    M = np.zeros((n, n))
+    M = np.zeros((n, n), dtype=np.asarray(v).dtype)
     for a, b, x in zip(r, c, v):
         M[a, b] += x
     return M
@@ -25,18 +25,20 @@ for n in (3, 4):
             r = np.array([p[0] for p in pat]); c = np.array([p[1] for p in pat])
             v = rs.uniform(0.5, 2.0, size=k)*rs.choice([-1., 1.], size=k)
             m = coo_matrix((v, (r, c)), shape=(n, n))
-            D = dense(v, r, c, n)
-            U = np.triu(D)
-            want_sym = U + np.triu(D, 1).T
-            want_skew = U - np.triu(D, 1).T
-            for name, fn, want in (("make_symmetric", S.make_symmetric, want_sym), ("make_skew_symmetric", S.make_skew_symmetric, want_skew),
-                                   ("finalize_symmetric_matrix", S.finalize_symmetric_matrix, want_sym)):
-                try:
-                    got = fn(coo_matrix((v.copy(), (r.copy(), c.copy())), shape=(n, n))).toarray()
-                    if not np.allclose(got, want, rtol=1e-13, atol=1e-13):
-                        viol[name].append({"rows": r.tolist(), "cols": c.tolist(), "vals": v.tolist(), "got": got.tolist(), "want": want.tolist()})
-                except Exception as e:
-                    viol[name].append({"rows": r.tolist(), "cols": c.tolist(), "raised": "%s: %s" % (type(e).__name__, e)})
+            # complex values too (the aerodynamic damping matrix is imaginary): the mirror image is the plain transpose, not the adjoint
+            for vv in (v*(0.3 + 1j), v):
+                D = dense(vv, r, c, n)
+                U = np.triu(D)
+                want_sym = U + np.triu(D, 1).T
+                want_skew = U - np.triu(D, 1).T
+                for name, fn, want in (("make_symmetric", S.make_symmetric, want_sym), ("make_skew_symmetric", S.make_skew_symmetric, want_skew),
+                                       ("finalize_symmetric_matrix", S.finalize_symmetric_matrix, want_sym)):
+                    try:
+                        got = fn(coo_matrix((vv.copy(), (r.copy(), c.copy())), shape=(n, n))).toarray()
+                        if not np.allclose(got, want, rtol=1e-13, atol=1e-13):
+                            viol[name].append({"rows": r.tolist(), "cols": c.tolist(), "vals": [str(x) for x in vv], "got": [[str(x) for x in row] for row in got], "want": [[str(x) for x in row] for row in want]})
+                    except Exception as e:
+                        viol[name].append({"rows": r.tolist(), "cols": c.tolist(), "raised": "%s: %s" % (type(e).__name__, e)})
             # remove_null_cols / solve on the symmetrised matrix
             Ksym = want_sym + np.diag(np.where(np.abs(want_sym).sum(axis=0) > 0, 7., 0.))
             K = csr_matrix(Ksym)
